@@ -637,6 +637,7 @@ func runLong(r *vh.Run, rng *vh.RNG) {
 
 func Run(r *vh.Run) {
 	r.Rule = "a case = one fork tree of real blocks (random hardfork heights, 2-4 branches, transactions from the v1/v2 menu, 0-3 single-field corruptions with empty blocks mined on top of header-valid ones) submitted to a fresh real Manager in one generated schedule (batches, duplicates, orphans first, batches mixing branches); non-trivial = the schedule caused at least one reorg proper or one error; distinct = distinct (tree, schedule) as op lists"
+	chainx.EnableStoreKinds() // contracts with far windows and revisions that pull the window in
 	rng := vh.NewRNG(r.Seed)
 	trees := r.Pick(40, 600)
 	scheds := 3
